@@ -2247,6 +2247,16 @@ class C13(Prop):
                     for c in chains:
                         for side in (c.ref, c.qry):
                             side.name = ren.setdefault(side.name, side.name + rng.choice(["\u00e9", "\u4e2d", "\U0001F9EC", "\u00e9\u4e2d"]))
+                if rng.random() < 0.25:
+                    # the same reference blocks aligned to several query contigs (copies of one chain under other query
+                    # names): blocks with identical reference start and end, whose order in an answer is the file's
+                    c0 = rng.choice(chains)
+                    for k in range(rng.randint(2, 4)):
+                        d = ch.chain_from_dict(ch.chain_to_dict(c0))
+                        d.qry.name = "dup%d" % k
+                        d.cid = c0.cid + 100 + k
+                        chains.insert(rng.randint(0, len(chains)), d)
+                    ch.fix_sizes(rng, chains)
                 if rng.random() < 0.2:
                     # a self chain: query contig, size, strand and start repeat the reference's; only the ends differ
                     # (by the gaps)
